@@ -76,9 +76,9 @@ Section CoreRun.
   (** * frame: a component that does not name a dictionary leaves it alone *)
   Definition writes_comp (c : comp) : option Z := match comp_agg c with Some g => writes g | None => None end.
 
-  Lemma do_agg_frame s l g d : writes g <> Some d -> forall key, dget (x mx (fst (do_agg blanks AND s l g))) d key = dget (x mx s) d key.
+  Lemma do_agg_frame s l g d : writes g <> Some d -> forall key, dget (x mx (fst (do_agg q blanks AND s l g))) d key = dget (x mx s) d key.
   Proof.
-    intros Hw key. destruct g as [i|nm i|nm i n|nm k|nm e|nm i e|nm key' e|i|i j|nm e]; cbn [do_agg writes] in *;
+    intros Hw key. destruct g as [i|nm i|nm i n|nm k|nm e|nm i e|nm key' e|i|i j|nm e|nm k0 n0|v0 nm c0]; cbn [do_agg writes] in *;
       try (cbn [fst x with_mx]; first [reflexivity | apply dget_dset_other_dict; intros E0; apply Hw; rewrite E0; reflexivity]).
     - destruct (dget (x mx s) nm (hdr_key l i)) as [[z'|z'|t|]|]; cbn [fst x with_mx]; try reflexivity;
         apply dget_dset_other_dict; intros E0; apply Hw; rewrite E0; reflexivity.
@@ -138,9 +138,9 @@ Section CoreRun.
     set (f1 := snd (seq_eval cst comp (ev l) AND pre (ensure cs s) (negb AND))).
     assert (H1: forall k, dget (x mx s1) (100 + Z.of_nat i) k = dget (x mx s) (100 + Z.of_nat i) k)
       by (intros k; unfold s1; rewrite seq_eval_frame by exact Hpre; apply He).
-    pose proof (tally_step blanks AND s1 l i) as T. cbn zeta in T. destruct T as (T1 & T2 & _).
-    change (eval q blanks AND (CAgg (Tally i)) s1 l) with (do_agg blanks AND s1 l (Tally i)).
-    destruct (do_agg blanks AND s1 l (Tally i)) as [s2 v] eqn:Ed. cbn [fst] in T1, T2.
+    pose proof (tally_step q blanks AND s1 l i) as T. cbn zeta in T. destruct T as (T1 & T2 & _).
+    change (eval q blanks AND (CAgg (Tally i)) s1 l) with (do_agg q blanks AND s1 l (Tally i)).
+    destruct (do_agg q blanks AND s1 l (Tally i)) as [s2 v] eqn:Ed. cbn [fst] in T1, T2.
     rewrite seq_eval_frame by exact Hpost.
     destruct (ustr_eqb (hdr_key l i) key) eqn:Ek.
     - apply ustr_eqb_eq in Ek. subst key. rewrite T1, H1. reflexivity.
@@ -188,19 +188,21 @@ Section CoreRun.
     | CAct (AssignN v _) | CAct (AssignS v _) | CAct (Pop v _) | CWhen _ (AssignN v _) | CWhen _ (AssignS v _) | CWhen _ (Pop v _) => Some v
     | CAgg (Counter v _) | CAgg (Sum v _) | CAct (Agg (Counter v _)) | CAct (Agg (Sum v _)) | CWhen _ (Agg (Counter v _)) | CWhen _ (Agg (Sum v _)) => Some v
     | CAgg (CounterE v _) | CAct (Agg (CounterE v _)) | CWhen _ (Agg (CounterE v _)) => Some v
+    | CAgg (CounterEq v _ _) | CAct (Agg (CounterEq v _ _)) | CWhen _ (Agg (CounterEq v _ _)) => Some v
+    | CAgg (CountIf v _ _) | CAct (Agg (CountIf v _ _)) | CWhen _ (Agg (CountIf v _ _)) => Some v
     | _ => None
     end.
 
-  Lemma do_agg_frame_var s l g v : (match g with Counter nm _ | Sum nm _ | CounterE nm _ => nm <> v | _ => True end) ->
-    lookup v (vars (x mx (fst (do_agg blanks AND s l g)))) = lookup v (vars (x mx s)).
+  Lemma do_agg_frame_var s l g v : (match g with Counter nm _ | Sum nm _ | CounterE nm _ | CounterEq nm _ _ | CountIf nm _ _ => nm <> v | _ => True end) ->
+    lookup v (vars (x mx (fst (do_agg q blanks AND s l g)))) = lookup v (vars (x mx s)).
   Proof.
-    intros Hw. destruct g as [i|nm i|nm i n|nm k|nm e|nm i e|nm key' e|i|i j|nm e]; cbn [do_agg]; try reflexivity;
-      try (cbn [fst x with_mx vars]; apply lookup_update_other; exact Hw).
+    intros Hw. destruct g as [i|nm i|nm i n|nm k|nm e|nm i e|nm key' e|i|i j|nm e|nm k0 n0|v0 nm c0]; cbn [do_agg]; try reflexivity;
+      try (cbn [fst x with_mx vars dset]; apply lookup_update_other; exact Hw).
     - destruct (dget (x mx s) nm (hdr_key l i)) as [[z'|z'|t|]|]; reflexivity.
     - destruct (is_blank_text (tally_text l i)); reflexivity.
   Qed.
 
-  Lemma do_action_frame_var s l a v : (match a with AssignN w _ | AssignS w _ | Pop w _ => w <> v | Agg (Counter w _) | Agg (Sum w _) | Agg (CounterE w _) => w <> v | _ => True end) ->
+  Lemma do_action_frame_var s l a v : (match a with AssignN w _ | AssignS w _ | Pop w _ => w <> v | Agg (Counter w _) | Agg (Sum w _) | Agg (CounterE w _) | Agg (CounterEq w _ _) | Agg (CountIf w _ _) => w <> v | _ => True end) ->
     lookup v (vars (x mx (do_action q blanks AND s l a))) = lookup v (vars (x mx s)).
   Proof.
     intros Hw. destruct a as [w e|w e|k e|k e|w k|g]; cbn [do_action].
@@ -245,7 +247,7 @@ Section CoreRun.
     unfold init_vars. induction cs as [|c cs IH]; intros vs; [reflexivity|]. cbn [fold_left]. rewrite IH.
     unfold comp_init. destruct c as [b|a|b a|g]; try reflexivity;
       try (destruct a as [? ?|? ?|? ?|? ?|? ?|g]; try reflexivity);
-      (destruct g as [i|nm i|nm i n|nm k|nm e|nm i e|nm key' e|i|i j|nm e]; try reflexivity; cbn [agg_init]; destruct (lookup nm vs); first [reflexivity|apply lookup_app_num]).
+      (destruct g as [i|nm i|nm i n|nm k|nm e|nm i e|nm key' e|i|i j|nm e|nm k0 n0|v0 nm c0]; try reflexivity; cbn [agg_init]; destruct (lookup nm vs); first [reflexivity|apply lookup_app_num]).
   Qed.
 
   Definition counter_once (nm k : Z) (cs : list comp) : Prop :=
@@ -263,9 +265,9 @@ Section CoreRun.
     rewrite Hcs at 1. rewrite seq_eval_app. cbn [seq_eval].
     set (s1 := fst (seq_eval cst comp (ev l) AND pre (ensure cs s) (negb AND))).
     assert (H1: lookup nm (vars (x mx s1)) = lookup nm (vars (x mx (ensure cs s)))) by (unfold s1; apply seq_eval_frame_var; exact Hpre).
-    pose proof (counter_step blanks AND s1 l nm k) as T. cbn zeta in T. destruct T as (T1 & _).
-    change (eval q blanks AND (CAgg (Counter nm k)) s1 l) with (do_agg blanks AND s1 l (Counter nm k)).
-    destruct (do_agg blanks AND s1 l (Counter nm k)) as [s2 v] eqn:Ed. cbn [fst] in T1.
+    pose proof (counter_step q blanks AND s1 l nm k) as T. cbn zeta in T. destruct T as (T1 & _).
+    change (eval q blanks AND (CAgg (Counter nm k)) s1 l) with (do_agg q blanks AND s1 l (Counter nm k)).
+    destruct (do_agg q blanks AND s1 l (Counter nm k)) as [s2 v] eqn:Ed. cbn [fst] in T1.
     rewrite seq_eval_frame_var by exact Hpost. rewrite T1. cbn [num_of]. rewrite H1, He. reflexivity.
   Qed.
 
@@ -320,9 +322,9 @@ Section CoreRun.
     rewrite Hcs at 1. rewrite seq_eval_app. cbn [seq_eval].
     set (s1 := fst (seq_eval cst comp (ev l) AND pre (ensure cs s) (negb AND))).
     assert (H1: lookup nm (vars (x mx s1)) = lookup nm (vars (x mx (ensure cs s)))) by (unfold s1; apply seq_eval_frame_var; exact Hpre).
-    pose proof (sum_step blanks AND s1 l nm (NHdr i)) as T. cbn zeta in T. destruct T as (T1 & _).
-    change (eval q blanks AND (CAgg (Sum nm (NHdr i))) s1 l) with (do_agg blanks AND s1 l (Sum nm (NHdr i))).
-    destruct (do_agg blanks AND s1 l (Sum nm (NHdr i))) as [s2 v] eqn:Ed. cbn [fst] in T1.
+    pose proof (sum_step q blanks AND s1 l nm (NHdr i)) as T. cbn zeta in T. destruct T as (T1 & _).
+    change (eval q blanks AND (CAgg (Sum nm (NHdr i))) s1 l) with (do_agg q blanks AND s1 l (Sum nm (NHdr i))).
+    destruct (do_agg q blanks AND s1 l (Sum nm (NHdr i))) as [s2 v] eqn:Ed. cbn [fst] in T1.
     rewrite seq_eval_frame_var by exact Hpost. rewrite T1. cbn [num_of]. rewrite H1, He, neval_hdr. reflexivity.
   Qed.
 
@@ -387,8 +389,8 @@ Section CoreRun.
     { unfold s1. rewrite <- Hp. clear. generalize (ensure cs s) (negb AND). induction pre as [|c pre IH]; intros s0 f; [reflexivity|].
       cbn [seq_eval]. destruct (eval_keeps q blanks AND c s0 l) as (_ & _ & _ & _ & K). destruct (eval q blanks AND c s0 l) as [s2 v]. cbn [fst] in K.
       rewrite IH. exact K. }
-    change (eval q blanks AND (CAgg (First nm i)) s1 l) with (do_agg blanks AND s1 l (First nm i)).
-    assert (T: dget (x mx (fst (do_agg blanks AND s1 l (First nm i)))) nm key =
+    change (eval q blanks AND (CAgg (First nm i)) s1 l) with (do_agg q blanks AND s1 l (First nm i)).
+    assert (T: dget (x mx (fst (do_agg q blanks AND s1 l (First nm i)))) nm key =
                match dget (x mx s) nm key with Some v => Some v | None => if ustr_eqb (hdr_key l i) key then Some (VI (pln mx s)) else None end).
     { cbn [do_agg]. destruct (ustr_eqb (hdr_key l i) key) eqn:Ek.
       - apply ustr_eqb_eq in Ek. subst key. rewrite H1.
@@ -398,7 +400,7 @@ Section CoreRun.
       - assert (Hne: hdr_key l i <> key) by (intros E0; rewrite E0, ustr_eqb_refl in Ek; discriminate).
         destruct (dget (x mx s1) nm (hdr_key l i)) as [[z'|z'|t|]|]; cbn [fst x with_mx]; rewrite ?(dget_dset_other_key _ _ _ _ _ Hne), H1;
           destruct (dget (x mx s) nm key); reflexivity. }
-    destruct (do_agg blanks AND s1 l (First nm i)) as [s2 v] eqn:Ed. cbn [fst] in T.
+    destruct (do_agg q blanks AND s1 l (First nm i)) as [s2 v] eqn:Ed. cbn [fst] in T.
     rewrite seq_eval_frame by exact Hpost. exact T.
   Qed.
 
@@ -460,9 +462,9 @@ Section CoreRun.
     set (s1 := fst (seq_eval cst comp (ev l) AND pre (ensure cs s) (negb AND))).
     assert (H1: forall k, dget (x mx s1) nm k = dget (x mx s) nm k)
       by (intros k; unfold s1; rewrite seq_eval_frame by exact Hpre; apply He).
-    pose proof (subtotal_step blanks AND s1 l nm i (NHdr j)) as T. cbn zeta in T. destruct T as (T1 & T2).
-    change (eval q blanks AND (CAgg (Subtotal nm i (NHdr j))) s1 l) with (do_agg blanks AND s1 l (Subtotal nm i (NHdr j))).
-    destruct (do_agg blanks AND s1 l (Subtotal nm i (NHdr j))) as [s2 v] eqn:Ed. cbn [fst] in T1, T2.
+    pose proof (subtotal_step q blanks AND s1 l nm i (NHdr j)) as T. cbn zeta in T. destruct T as (T1 & T2).
+    change (eval q blanks AND (CAgg (Subtotal nm i (NHdr j))) s1 l) with (do_agg q blanks AND s1 l (Subtotal nm i (NHdr j))).
+    destruct (do_agg q blanks AND s1 l (Subtotal nm i (NHdr j))) as [s2 v] eqn:Ed. cbn [fst] in T1, T2.
     rewrite seq_eval_frame by exact Hpost.
     destruct (ustr_eqb (hdr_key l i) key) eqn:Ek.
     - apply ustr_eqb_eq in Ek. subst key. rewrite T1, H1, neval_hdr. reflexivity.
